@@ -25,7 +25,7 @@ endif
 LDSAN  += -Wl,-u,_ZN23Parma_Polyhedra_Library15ppl_unreachableEv -Wl,-u,_ZN23Parma_Polyhedra_Library19ppl_unreachable_msgEPKcS1_jS1_
 CXX    := g++
 KIT    := sim/kit
-HARNESSES := wd obj_poly obj_shapes obj_grid obj_pset obj_prod rows mip pip widen
+HARNESSES := wd obj_poly obj_shapes obj_float obj_grid obj_pset obj_prod rows mip pip widen
 # the C interface (14 generated translation units, ~1800 entry points) is built in the plain flavour only
 ifneq ($(FL),asan)
 HARNESSES += capi
@@ -45,7 +45,7 @@ $(B)/libppl.a: $(OBJS)
 
 $(B)/h/%.o: sim/harness/%.cc
 	@mkdir -p $(dir $@)
-	$(CXX) $(COMMON) $(OPT) -fno-access-control -I sim -c $< -o $@
+	$(CXX) $(COMMON) $(OPT) -fno-access-control -I sim -I$(REPO)/interfaces -c $< -o $@
 
 $(B)/k/%.o: sim/kit/%.cc
 	@mkdir -p $(dir $@)
